@@ -622,7 +622,8 @@ example : (run (fun _ _ => 0) (auxProg intFns { intAux with allFinite := fun _ =
   C10.klce_gradient_raise_writes_nothing intFns _ intPar true _ (fun _ _ => 5) 1 (by omega) rfl 1
     (by omega)
 
-/-! ### `RosenbrockGradient._call(x, out)`: an in-place body that is NOT alias safe (finding) -/
+/-! ### `RosenbrockGradient._call(x, out)`: loop of scalar assignments behind a copy guard
+(the guard was added by /repo c0dbe5c after finding C10-F2; the model of the code is `rosenFixed`) -/
 
 /-- The loop of `RosenbrockGradient._call` keeps the environment and the allocation counter and
 writes only the object bound to `out` — for every list of indices (any domain size). -/
@@ -691,10 +692,11 @@ theorem C10.rosenbrock_gradient_computes_spec {K : Type} [Add K] [Sub K] [Mul K]
         exact ⟨k - 1, by omega, by omega⟩
       simp [hl, h0, hmem]
 
-/-- The proposed repair suffices, for every size `n ≥ 2`: with `if out is x: x = x.copy()` in
-front, the aliased call leaves in every entry `k < n` of `x` what the non-aliased call writes to
-`out[k]` — the gradient formula on the original input. (About `rosenFixed`, which is not the
-code of /repo: the statement about the code is `C10.rosenbrock_gradient_alias_fails`.) -/
+/-- `RosenbrockGradient._call` as it is in /repo (since c0dbe5c, with `if out is x: x = x.copy()`),
+every size `n ≥ 2`, every scale, every scalar type: the aliased call `G(x, out=x)` leaves in every
+entry `k < n` of `x` what the non-aliased call writes to `out[k]` — the gradient formula on the
+original input. (Entrywise for `k < n`: the body assigns scalars, entries beyond the domain size
+are not part of the element.) Executed by the driver (`aux id=rosen`), stream aux-correspondence. -/
 theorem C10.rosenbrock_gradient_fixed_alias_safe {K : Type} [Add K] [Sub K] [Mul K] [Neg K]
     [OfNat K 1] (c : K) (n : Nat) (hn : 2 ≤ n) (jk jk' : Nat → Vec K) (m : Nat → Vec K)
     (j : Vec K) (k : Nat) (hk : k < n) :
@@ -709,33 +711,55 @@ theorem C10.rosenbrock_gradient_fixed_alias_safe {K : Type} [Add K] [Sub K] [Mul
       { mem := fun b => if b = 1 then j else m b, next := 10 } (by simp [env0]) k hk
     simpa [run, rosenFixed, exec, env0, srcVals] using this
 
-/-- Frame for `RosenbrockGradient._call`, every domain size `n` and scale `c`: the input `x` (when
-it is not `out`) and every other existing object are left alone. -/
-theorem C10.rosenbrock_gradient_frame {K : Type} [Add K] [Sub K] [Mul K] [Neg K] [OfNat K 1]
-    (c : K) (n : Nat) : Frame (rosenProg c n) := by
-  intro jk m ob hob b hb hne
-  obtain ⟨h1, h2, h3⟩ := C10.rosenbrock_loop_frame c jk ((List.range (n - 2)).map (· + 1))
-    (env0 0 ob) { mem := m, next := 10 }
-  have hb' : b ≠ env0 0 ob .out := by simpa [env0] using hne
-  simp only [run, rosenProg, exec]
-  generalize hE : exec jk (rosenLoop c ((List.range (n - 2)).map (· + 1)))
-    (env0 0 ob, { mem := m, next := 10 }) = E at h1 h2 h3
-  obtain ⟨env, s⟩ := E
+/-- The assignments after the guard write only the object bound to `out`, whatever the
+environment (any domain size). -/
+theorem C10.rosenbrock_body_frame {K : Type} [Add K] [Sub K] [Mul K] [Neg K] [OfNat K 1]
+    (c : K) (n : Nat) (jk : Nat → Vec K) (env : Env) (s : St K) (b : Nat) (hb : b ≠ env .out) :
+    (exec jk (rosenProg c n) (env, s)).2.mem b = s.mem b := by
+  obtain ⟨h1, h2, h3⟩ := C10.rosenbrock_loop_frame c jk ((List.range (n - 2)).map (· + 1)) env s
+  simp only [rosenProg, exec]
+  generalize exec jk (rosenLoop c ((List.range (n - 2)).map (· + 1))) (env, s) = E at h1 h2 h3
+  obtain ⟨env', s'⟩ := E
   simp only at h1 h2 h3
   subst h1
-  simp [exec, St.write, hb', h3 b hb']
+  simp [exec, St.write, hb, h3 b hb]
 
-/-- FINDING (model side): `RosenbrockGradient._call` is NOT alias safe. With `out is x` the
-assignment `out[i] = …` reads `x[i-1]`, which the previous iteration has already overwritten
-(witness over ℤ: n = 4, c = 1, x = (1, 2, −1, 1): the aliased call leaves 86 ≠ … in `x`). The
-driver executes this very program and reproduces the wrong values of the real aliased call. -/
-theorem C10.rosenbrock_gradient_alias_fails : ¬ AliasSafe (rosenProg (1 : Int) 4) := by
+/-- Frame for `RosenbrockGradient._call` as it is in /repo (`rosenFixed`), every domain size `n`
+and scale `c`: the input `x` (when it is not `out`) and every other existing object are left
+alone; in the aliased call the copy is a new object. -/
+theorem C10.rosenbrock_gradient_frame {K : Type} [Add K] [Sub K] [Mul K] [Neg K] [OfNat K 1]
+    (c : K) (n : Nat) : Frame (rosenFixed c n) := by
+  intro jk m ob hob b hb hne
+  have hob' : ob = 0 ∨ ob = 1 := by omega
+  rcases hob' with rfl | rfl
+  · have := C10.rosenbrock_body_frame c n jk ((env0 0 0).set .x 10)
+      { mem := fun b' => if b' = 10 then m 0 else m b', next := 11 } b
+      (by simpa [Env.set, env0] using hne)
+    have h10 : b ≠ 10 := by omega
+    simpa [run, rosenFixed, exec, env0, Env.set, srcVals, h10] using this
+  · have := C10.rosenbrock_body_frame c n jk (env0 0 1) { mem := m, next := 10 } b
+      (by simpa [env0] using hne)
+    simpa [run, rosenFixed, exec, env0] using this
+
+namespace OdlModel.C10
+/-- `RosenbrockGradient._call` as it was BEFORE /repo c0dbe5c: the assignments without the copy
+guard (OLD variant, kept for the sensitivity theorem only; not the code of /repo). -/
+def rosenOld {K} [Add K] [Sub K] [Mul K] [Neg K] [OfNat K 1] (c : K) (n : Nat) : Stmt K :=
+  rosenProg c n
+end OdlModel.C10
+
+/-- Sensitivity (former finding C10-F2, repaired in /repo by c0dbe5c): the OLD body WITHOUT the
+copy guard (`rosenOld`) is NOT alias safe — with `out is x` the assignment `out[i] = …` reads
+`x[i-1]`, which the previous iteration has already overwritten (witness over ℤ: n = 4, c = 1,
+x = (1, 2, −1, 1)). The guard of `rosenFixed` is what `rosenbrock_gradient_fixed_alias_safe`
+needs. -/
+theorem C10.rosenbrock_gradient_alias_fails : ¬ AliasSafe (rosenOld (1 : Int) 4) := by
   intro h
   have := congrFun (h (fun _ _ => 0) (fun _ _ => 0)
     (fun _ k => if k = 0 then 1 else if k = 1 then 2 else if k = 2 then -1 else 1) (fun _ => 0)) 2
   revert this
-  simp [run, exec, rosenProg, rosenLoop, rosenInner, rosenInnerVal, rosenFirstVal, rosenLastVal,
-    env0, St.write, srcVals, List.range, List.range.loop]
+  simp [run, exec, rosenOld, rosenProg, rosenLoop, rosenInner, rosenInnerVal, rosenFirstVal,
+    rosenLastVal, env0, St.write, srcVals, List.range, List.range.loop]
 
 /-- Non-vacuity of `rosenbrock_gradient_computes_spec` / `…_fixed_alias_safe`: n = 4, c = 1,
 x = (1, 2, −1, 1) over ℤ: entry 2 of the gradient is 2(−1 − 4) − 4(1 − 1)(−1) − 2(1 + 1) = −14, by
